@@ -232,9 +232,9 @@ fn audit_tokio_runtime() {
         });
         let _ = dtx.send(r);
     });
-    let (spurious, got, polls) = match drx.recv_timeout(std::time::Duration::from_secs(10)) {
-        Ok(x) => x,
-        Err(_) => fail("A11 poll_recv", "Pending with values still buffered and the task was never polled again (no wake-up scheduled by the runtime)".into()),
+    let (spurious, got, polls) = match recv_unless_idle(&drx, 10, 900) {
+        Some(x) => x,
+        None => fail("A11 poll_recv", "Pending with values still buffered and the task was never polled again (no wake-up scheduled by the runtime)".into()),
     };
     let l = tokio::sync::RwLock::new(1usize);
     let rg = l.try_read().unwrap();
